@@ -47,6 +47,23 @@ def _force_chem(rs, spec):
         s["chst"] = [1] * len(spec["envs"])
 
 
+def _flagged_reactant(rs, spec):
+    """with some probability add a reaction that consumes two or three molecules of a species that is flagged somewhere:
+    the flag exempts the entry from the change, not from the (combinatorial) propensity"""
+    m = Model(spec)
+    fl = [s for s in range(m.ns) if m.chem[s].any()]
+    if not fl or len(spec["reactions"]) >= 4:
+        return
+    a = spec["species"][rs.choice(fl)]["label"]
+    b = rs.choice(spec["species"])["label"]
+    n = rs.choice([2, 2, 3])
+    nenv = len(spec["envs"])
+    ctyp = max(1.0, float(np.abs(m.x0).mean())) / float(m.V.mean())
+    k = rs.loguniform(0.05, 1.0) * ctyp ** (1 - n)
+    prod = {b: 1} if b != a else {}
+    spec["reactions"].append({"label": None, "sub": {a: n}, "prod": prod, "kf": [k] * nenv, "kr": [0.0] * nenv})
+
+
 def generate(seed, tier, index):
     base = Stream(ID, seed, tier, index)
     rs, ru, rk, rf = base.sub("spec"), base.sub("units"), base.sub("script"), base.sub("sched")
@@ -55,15 +72,28 @@ def generate(seed, tier, index):
     from .. import gen
     spec = gen.gen_spec(rs, SMALL_P if coobs else SPEC_P)
     _force_chem(rs, spec)
+    if rs.chance(0.35):
+        _flagged_reactant(rs, spec)
     entry = C.make_script_entry(rs, ru, rk, kind, None, {"steps": (3, 40), "p_ongrid": 0.05,
                                                          "isp": rk.choice(["auto", "auto", "redist", "Poisson"]) if kind != "euler" else "auto"},
                                 rich=rs.chance(0.5), spec=spec)
     spec = entry["phys"]["spec"]
     sp = entry["phys"]["sp"]
+    if kind != "euler":
+        # pooled statistics need independent random streams: no shared boundary seeds (0, 1, 2^31-1, ...) here
+        entry["script"]["rng_seed"] = rf.bits(31)
+        sp["seed"] = entry["script"]["rng_seed"]
     m = Model(spec)
     eps = []
     applied = []
     nrep = rf.wchoice([(1, 2), (2, 2)])
+    scripts = [entry]
+    if nrep == 2 and kind != "euler":
+        # the second set-up runs with another seed (an identical stochastic run would add no information)
+        e2 = copy.deepcopy(entry)
+        e2["script"]["rng_seed"] = rf.bits(31)
+        e2["phys"]["sp"]["seed"] = e2["script"]["rng_seed"]
+        scripts.append(e2)
     x = m.x0.copy()
     for rep in range(nrep):
         ops = []
@@ -113,9 +143,10 @@ def generate(seed, tier, index):
         ops += obs
         if rep == nrep - 1 or rf.chance(0.5):
             ops.append(["finalize"])
-        eps.append({"obj": 0, "kind": kind, "via": rf.choice(["LibRDEngine", "factory"]), "script": 0, "ops": ops})
+        eps.append({"obj": 0, "kind": kind, "via": rf.choice(["LibRDEngine", "factory"]), "script": min(rep, len(scripts) - 1),
+                    "ops": ops})
     return {"format": 1, "property": ID, "seed": seed, "tier": tier, "index": index, "build": "plain",
-            "scripts": [entry], "lifetimes": [{"pyseed": rf.bits(30), "episodes": eps}],
+            "scripts": scripts, "lifetimes": [{"pyseed": rf.bits(30), "episodes": eps}],
             "meta": {"kind": kind, "coobs": coobs, "applied": applied}}
 
 
@@ -219,6 +250,12 @@ def check(case, results):
                         if g is not None:
                             ag = np.bincount(tab.group_of_event, weights=tab.propensities(prev.x), minlength=tab.ngroups)
                             ok = ag[g] > 0
+                        if ok:
+                            # waiting time x reference total propensity (flagged entries included): pooled over the run
+                            a0_ = float(ag.sum())
+                            gg = stats.setdefault("g", {})
+                            gg["w_sum"] = gg.get("w_sum", 0.0) + (o.t - prev.t) * si.factor(phys["eu"], si.DIM_TIME) * a0_
+                            gg["w_n"] = gg.get("w_n", 0) + 1
                         if not ok:
                             v.append({"oracle": "C03.masked-step", "action": ai,
                                       "detail": "Gillespie step %d changes the state by %s: not the chemostat-masked effect of any "
@@ -246,6 +283,14 @@ def global_check(total):
     import math
     out, info = [], {}
     g = total.get("g") or {}
+    if g.get("w_n", 0) >= 5000:
+        z = (g["w_sum"] / g["w_n"] - 1.0) * math.sqrt(g["w_n"])
+        info["pooled_gillespie_wait_z"] = z
+        info["pooled_gillespie_steps"] = g["w_n"]
+        if abs(z) > 6.5:
+            out.append({"class": "violation", "oracle": "C03.pooled-waiting-time",
+                        "detail": "Gillespie runs with chemostat maps: pooled mean of dt*a0_ref = %.5f over %d steps (z=%.1f): "
+                                  "flagged entries are not exempt from the propensity" % (g["w_sum"] / g["w_n"], g["w_n"], z)})
     if g.get("sc_m_den", 0) > 100:
         z = g["sc_m_num"] / math.sqrt(g["sc_m_den"])
         info["pooled_tauleap_drift_direction_z"] = z
